@@ -35,21 +35,20 @@ theorem vis_forms (mk : Bytes) (a b : StrOrBytes) (c d : Option StrOrBytes) (h :
   | none, none, _ => rfl
   | some x, some y, hxy => simp only [hxy.2]
 
+theorem psnTextR_forms (c d : Option StrOrBytes) (hc : SameTextOpt c d) : psnTextR c = psnTextR d := by
+  match c, d, hc with
+  | none, none, _ => rfl
+  | some x, some y, hxy => simp only [psnTextR, Option.getD_some, hxy.2]
+
 theorem mk_a_forms (k : Bytes) (a b : StrOrBytes) (c d : Option StrOrBytes) (h : SameText a b) (hc : SameTextOpt c d) :
     deriveIccMkA k a c = deriveIccMkA k b d := by
   unfold deriveIccMkA
-  rw [h.2]
-  match c, d, hc with
-  | none, none, _ => rfl
-  | some x, some y, hxy => simp only [Option.getD_some, hxy.2]
+  rw [h.2, psnTextR_forms c d hc]
 
 theorem mk_b_forms (k : Bytes) (a b : StrOrBytes) (c d : Option StrOrBytes) (h : SameText a b) (hc : SameTextOpt c d) :
     deriveIccMkB k a c = deriveIccMkB k b d := by
   unfold deriveIccMkB
-  rw [h.1, h.2, mk_a_forms k a b c d h hc]
-  match c, d, hc with
-  | none, none, _ => rfl
-  | some x, some y, hxy => simp only [Option.getD_some, hxy.2]
+  rw [h.1, h.2, mk_a_forms k a b c d h hc, psnTextR_forms c d hc]
 
 /-- the constructor default: an absent *or empty* PSN means "00", in either form -/
 theorem psnOr00_forms (s : PyStr) (h : IsDigits s) :
